@@ -1,5 +1,7 @@
 # -*- coding: utf-8 -*-
 
+import copy
+
 from vsg import parser, violation
 from vsg.rule_group import structure
 from vsg.rules import utils as rules_utils
@@ -73,6 +75,6 @@ class insert_token_left_of_token_if_it_does_not_exist_between_tokens(structure.R
         else:
             lTokens = oViolation.get_tokens()
             dAction = oViolation.get_action()
-            rules_utils.insert_token(lTokens, dAction["index"], self.insert_token)
+            rules_utils.insert_token(lTokens, dAction["index"], copy.deepcopy(self.insert_token))
             rules_utils.insert_whitespace(lTokens, dAction["index"] + 1)
             oViolation.set_tokens(lTokens)
